@@ -47,6 +47,26 @@ CLAIMED.update({
             SMT_NOTE),
 })
 
+VM_NOTE = "Trusted: the simulator's embedder protocol (commit on success, restore the pre-transaction snapshot on revert/panic/error, exactly as MemoryClient::transact), the SimStorage wrapper (delegates every call to the real MemoryStorage), the program generator; transactions pass the basic checks only."
+CLAIMED.update({
+    "C28": ("vm", "DESIGN.md §6 C28, §4.1",
+            "deterministic simulation: seeded chain histories executed by a reference replica; receipt grammar, RFC 6962 receipts root, revert/panic output reset checked per transaction; differential run through the real MemoryClient for storage rollback",
+            "Seeded search over generated programs (panics at arbitrary instructions, reverts inside nested calls, gas exhaustion); every completed script's receipts/outputs judged by an independent oracle; the real MemoryClient must leave storage untouched after reverted transactions. Sampling, not enumeration.",
+            VM_NOTE + " Receipt-limit (65 535) runs only in the thorough tier."),
+    "C29": ("vm", "DESIGN.md §6 C29, §4.1",
+            "deterministic simulation with fault injection: raw-byte and grammar programs single-stepped under a supervisor with storage I/O errors; no host panic, no Bug error, gas strictly decreasing per instruction under the default schedule",
+            "Each transaction is single-stepped (debugger as event loop) with pokes into writable registers and a storage fault at a seeded call; host panics/aborts/hangs are caught by the process supervisor. Sampling, not enumeration.",
+            VM_NOTE + " A transaction rejected at initialisation with a CheckError (e.g. input balance overflow) counts as rejected, not executed."),
+    "C31": ("vm", "DESIGN.md §6 C31, §4.1",
+            "deterministic simulation with crash/restart injection: replicated execution (fresh vs reused interpreter, dirty pooled memory, storage error/crash + rollback + retry, abandoned debug session) with replica agreement after every transaction",
+            "Replica agreement on (state, receipts, output transaction, storage digest) after every transaction of seeded histories; crashed replicas must agree after one retry. Sampling, not enumeration.",
+            VM_NOTE),
+    "C32": ("vm", "DESIGN.md §6 C32, §4.1",
+            "deterministic simulation: single-stepped and breakpoint-interrupted replicas resumed to completion vs an uninterrupted reference; debug events embedded into the observed arrival trace",
+            "Random breakpoint sets (script, callee, loop targets) and single-stepping; results must equal the reference and every debug event must match a distinct arrival with pre-instruction registers. Sampling, not enumeration.",
+            VM_NOTE),
+})
+
 PLANNED = {
 }
 
